@@ -433,7 +433,9 @@ def fresh_cancellation():  # noqa: ANN201
                     for place in ("before", "after"):
                         blk: list = [["forever"]]
                         for _ in range(depth):
-                            blk = [["catch_then", blk, [["cp", 1]], "fresh"]]
+                            # (nothing awaited in the handler: an await there would be
+                            # interrupted again and the fresh exception never raised)
+                            blk = [["catch_then", blk, [], "fresh"]]
 
                         sib = {"tid": 2, "how": "start_soon", "body": [["sleep", 2]]}
                         if kind == "scope":
